@@ -51,7 +51,7 @@ EXTENDS Naturals, Sequences, FiniteSets, TLC
 
 CONSTANTS MaxEv,      \* the source emits at most MaxEv events
           Classes,    \* payload classes
-          Modes,      \* request kinds explored: "ok", "parse", "validate", "suberr"
+          Modes,      \* request kinds explored: "ok", "parse", "validate", "suberr", "subpanic" (the Subscribe resolver panics)
           Design,     \* "intended" | "asis"
           Cap         \* capacity of an executor's hand-off channel
 
